@@ -20,7 +20,7 @@ Proof.
   apply Z.eqb_neq in E0.
   assert (Hle : blen s <= max_int64 / count).
   { apply Z.div_le_lower_bound; lia. }
-  destruct (max_int64 / count <? blen s) eqn:Eo; [apply Z.ltb_lt in Eo; lia|discriminate].
+  destruct (max_int64 / count <? blen s) eqn:Eo; [apply Z.ltb_lt in Eo; lia|destruct s; discriminate].
 Qed.
 
 Lemma go_repeat_length s count out : go_repeat s count = Ok out -> 0 <= count -> blen out = blen s * count.
@@ -32,7 +32,8 @@ Proof.
   { apply Z.eqb_eq in E1. inversion H. subst. lia. }
   destruct (count <? 0); [discriminate|].
   destruct (max_int64 / count <? blen s); [discriminate|].
-  inversion H. unfold blen. rewrite rep_bytes_length. lia.
+  destruct s as [|b s']; inversion H; [unfold blen; cbn; lia|].
+  unfold blen. rewrite rep_bytes_length. lia.
 Qed.
 
 Lemma cap_le_max : repeat_cap <= max_int64.
